@@ -6,8 +6,8 @@ Import ListNotations.
 Open Scope N_scope.
 
 Definition md5n : option (list N) := Some [109;100;53].
-Definition fileE (size : N) (h : list N) : ientry := E (Some (M false (Some size) None false None None)) (Some (H md5n (Some h))).
-Definition dirE (h : list N) : ientry := E (Some (M true None None false None None)) (Some (H md5n (Some (h ++ HASH_DIR_SUFFIX)))).
+Definition fileE (size : N) (h : list N) : ientry := E (Some (M false (Some size) None false None None None)) (Some (H md5n (Some h))).
+Definition dirE (h : list N) : ientry := E (Some (M true None None false None None None)) (Some (H md5n (Some (h ++ HASH_DIR_SUFFIX)))).
 
 (* old:  d/ (hashed D1.dir) { f -> h1, g -> h2 }   x -> h3   s/ (hashed S.dir) { u -> h5 }   e -> no hash, size 1
    new:  d/ (hashed D2.dir) { f -> h1, h -> h2 }   y/ (implicit) { z -> h4 }   s/ (hashed S.dir) { u -> h5 }
@@ -15,12 +15,12 @@ Definition dirE (h : list N) : ientry := E (Some (M true None None false None No
 Definition ex_old : index :=
   [ ([[100]], dirE [68;49]); ([[100];[102]], fileE 1 [104;49]); ([[100];[103]], fileE 2 [104;50]);
     ([[120]], fileE 3 [104;51]); ([[115]], dirE [83]); ([[115];[117]], fileE 5 [104;53]);
-    ([[101]], E (Some (M false (Some 1) None false None None)) None) ].
+    ([[101]], E (Some (M false (Some 1) None false None None None)) None) ].
 Definition ex_new : index :=
   [ ([[115];[117]], fileE 5 [104;53]); ([[100]], dirE [68;50]); ([[100];[102]], fileE 1 [104;49]);
     ([[100];[104]], fileE 2 [104;50]); ([[121];[122]], fileE 4 [104;52]); ([[115]], dirE [83]);
-    ([[120]], E (Some (M true None None false None None)) None); ([[120];[119]], fileE 3 [104;51]);
-    ([[101]], E (Some (M false (Some 2) None false None None)) None) ].
+    ([[120]], E (Some (M true None None false None None None)) None); ([[120];[119]], fileE 3 [104;51]);
+    ([[101]], E (Some (M false (Some 2) None false None None None)) None) ].
 
 Example ex_wf_old : WfO (Some ex_old).
 Proof. apply wf_b_sound. vm_compute. reflexivity. Qed.
